@@ -1574,6 +1574,7 @@ class BinaryQuadraticModel(QuadraticViewsMixin):
 
             return (vartype_eq
                     and self.shape == other.shape
+                    and set(self.variables) == set(other.variables)
                     and eq(self.offset, other.offset)
                     and all(eq(self.get_linear(v), other.get_linear(v))
                             for v in self.variables)
